@@ -1041,7 +1041,7 @@ inline bool pathname_has_windows_drive(string_view pathname) noexcept {
     return
         (pathname.length() == 3 || (pathname.length() > 3 && is_windows_slash(pathname[3]))) &&
         is_windows_slash(pathname[0]) &&
-        is_windows_drive(pathname[1], pathname[2]);
+        is_normalized_windows_drive(pathname[1], pathname[2]);
 }
 
 /// Check string is absolute Windows drive path (for example: "C:\\path" or "C:/path")
